@@ -14,7 +14,7 @@ import (
 func init() { register("C03", runC03) }
 
 func runC03(c *Check, tier string) {
-	c.Decides = "a dependant is released only when a ∀-loop over all its in-edges found a successful completion for each; the callback runs at most once per node routine, only after `ready`, and one routine exists per selected node; every command is started from inside a pool task; the pool starts exactly maxWorkers sequential workers (maxWorkers derived from num_workers) and a task runs only on a worker; per-target mutexes are released on every exit."
+	c.Decides = "a dependant is released only when a ∀-loop over all its in-edges found a successful completion for each; the callback runs at most once per node routine, only after `ready`, and one routine exists per selected node; every command is started from inside a pool task; the pool starts exactly maxWorkers sequential workers (maxWorkers derived from num_workers) and a task runs only on a worker; per-target mutexes are released on every exit; adjacency lists handed out by the graph are not modified outside internal/dag."
 	c.NotDec = "real-time overlap of commands, happens-before of the hashes read by dependants beyond lock/channel pairing, scheduler fairness."
 	c.Rule("R03a", "∀-release: the release of a dependant is guarded by a flag that is true before a full range over inEdges[dependant], cleared on every missing/unsuccessful dependency, never set back, and the loop has no early exit on a satisfied dependency; a failed completion never releases", 2)
 	c.Rule("R03b", "the callback is called at one site outside loops, only after the ready receive; routines are spawned once per selected node", 3)
